@@ -391,27 +391,43 @@ def spans_nested(t, bad):
 
 
 # ============================================================================================ Coq emitters
+def T(s):
+    """text -> flat Coq string literal decoded by PosCheck.unesc: non-printables and the backslash as \\DDD"""
+    out = []
+    for ch in s:
+        o = ord(ch)
+        if o > 255:
+            raise ValueError('non-latin1 character in model text')
+        if ch == '\\' or not (32 <= o < 127):
+            out.append('\\%03d' % o)
+        elif ch == '"':
+            out.append('""')
+        else:
+            out.append(ch)
+    return '"' + ''.join(out) + '"'
+
+
 def coq_obs(st):
-    return '(%s, %s, %s, %s)' % tuple(Z(x) for x in st)
+    return '(Obs %s %s %s %s)' % tuple(Z(x) for x in st)
 
 
 def coq_snap(snap):
-    return '(@None (Z * Z))' if snap is None else '(Some (%s, %s))' % (Z(snap[0]), Z(snap[1]))
+    return 'NoSnap' if snap is None else '(Snap %s %s)' % (Z(snap[0]), Z(snap[1]))
 
 
 def coq_trace(rec):
     ops = []
     for o in rec['ops']:
         if o[0] == 'feed':
-            ops.append('(OpFeed %s %s, %s)' % (S(o[1]), 'true' if o[2] else 'false', coq_obs(o[3])))
+            ops.append('OpFeed %s %s %s' % (T(o[1]), 'true' if o[2] else 'false', coq_obs(o[3])))
         else:
-            ops.append('(OpAdvance %s, %s)' % (Z(o[1]), coq_obs(o[2])))
-    return '(%s, %s, %s, %s, (%s : list (op * cobs)))' % (S(as_text(rec['buf'])), Z(rec['start']), coq_snap(rec['snap']),
-                                                          coq_obs(rec['init']), L(ops))
+            ops.append('OpAdvance %s %s' % (Z(o[1]), coq_obs(o[2])))
+    return 'TraceCase %s %s %s %s %s' % (T(as_text(rec['buf'])), Z(rec['start']), coq_snap(rec['snap']),
+                                        coq_obs(rec['init']), L(ops))
 
 
 def coq_tokobs(f):
-    return '(%s, %s, %s, %s, %s, %s, %s, %s)' % (S(f[0]), S(f[1]), Z(f[2]), Z(f[3]), Z(f[4]), Z(f[5]), Z(f[6]), Z(f[7]))
+    return 'TokObs %s %s %s %s %s %s %s %s' % (S(f[0]), T(f[1]), Z(f[2]), Z(f[3]), Z(f[4]), Z(f[5]), Z(f[6]), Z(f[7]))
 
 
 def coq_lex_case(run, tr):
@@ -419,38 +435,37 @@ def coq_lex_case(run, tr):
     if rec is None or rec['ops'] is None:
         return None
     sl = run.slice
-    table = L(['(%s, (%s, %s))' % (Z(p), N(n), S(ty)) for p, n, ty in run.matches])
+    table = L(['Entry %s %s %s' % (Z(p), N(n), S(ty)) for p, n, ty in run.matches])
     toks = L([coq_tokobs((pre,) + f[1:]) for pre, f in run.tokens])
-    return ('(%s, %s, %s, %s, (%s : list string), (%s : list string), (%s : list (Z * (nat * string))), '
-            '(%s : list tokobs), %s, (%s, %s, %s))') % (
-        S(as_text(sl.text)), Z(rec['start']), Z(sl.end), coq_snap(rec['snap']), L([S(x) for x in run.ignore]),
+    return 'LexCase %s %s %s %s %s %s %s %s %s %s %s %s' % (
+        T(as_text(sl.text)), Z(rec['start']), Z(sl.end), coq_snap(rec['snap']), L([S(x) for x in run.ignore]),
         L([S(x) for x in sorted(run.nlt)]), table, toks, Z(run.code), Z(run.err[0] or 0), Z(run.err[1] or 0), Z(run.err[2] or 0))
 
 
 def coq_dyn_case(buf, toks):
-    return '(%s, %s, %s)' % (S(as_text(buf)), 'true' if isinstance(buf, bytes) else 'false',
-                             L([coq_tokobs(tok_fields(t)) for t in toks]))
+    return 'DynCase %s %s %s' % (T(as_text(buf)), 'true' if isinstance(buf, bytes) else 'false',
+                                 L([coq_tokobs(tok_fields(t)) for t in toks]))
 
 
 def coq_trip(t):
-    return 'None' if t is None else '(Some (%s, %s, %s))' % (Z(t[0]), Z(t[1]), Z(t[2]))
+    return 'None' if t is None else '(Some (T3 %s %s %s))' % (Z(t[0]), Z(t[1]), Z(t[2]))
 
 
 def coq_meta(m):
     return '(mkMeta %s %s %s %s)' % (coq_trip(m[1]), coq_trip(m[2]), coq_trip(m[3]), coq_trip(m[4]))
 
 
-def coq_ptree(tr, idx):
-    """(ptree term, list of (observed result) in the model's traversal order) for call idx"""
+def coq_ptree(tr, idx, top=True):
+    """ptree term for PropagatePositions call idx (children produced by recorded calls are nested)"""
     call = tr.pp_calls[idx]
     kids = []
     for kind, v in call['kids']:
         if kind == 'node':
-            kids.append(coq_ptree(tr, v))
+            kids.append(coq_ptree(tr, v, False))
         elif kind == 'tok':
-            kids.append('(PTok %s)' % coq_span_tok(v))
+            kids.append('PTok %s' % coq_span_tok(v))
         elif kind == 'tree':
-            kids.append('(PLeaf %s)' % coq_meta(v))
+            kids.append('PLeaf %s' % coq_meta(v))
         else:
             kids.append('PNone')
     sel = 'None' if call['sel'] is None else '(Some %s)' % N(call['sel'])
@@ -461,12 +476,12 @@ def coq_ptree(tr, idx):
         obs = '(OTok %s)' % coq_span_tok(ob[1])
     else:
         obs = 'OOther'
-    return '(PNode %s %s %s)' % (sel, obs, L(kids))
+    return 'PNode %s %s %s' % (sel, obs, L(kids))
 
 
 def coq_span_tok(f):
     # (start_pos, line, column), (end_pos, end_line, end_column)
-    return '((%s, %s, %s), (%s, %s, %s))' % (Z(f[2]), Z(f[3]), Z(f[4]), Z(f[7]), Z(f[5]), Z(f[6]))
+    return '(SE (T3 %s %s %s) (T3 %s %s %s))' % (Z(f[2]), Z(f[3]), Z(f[4]), Z(f[7]), Z(f[5]), Z(f[6]))
 
 
 def meta_roots(tr):
@@ -702,7 +717,7 @@ class Collector:
             cases = uniq
             if not cases:
                 continue
-            bad, errs = ctx.coq_bad_indices(name, IMPORTS, fn, [c for c, _ in cases], chunk=120)
+            bad, errs = ctx.coq_bad_indices(name, IMPORTS, fn, [c for c, _ in cases], chunk=400)
             ctx.extra.setdefault('coq_case_kinds', {})[fn] = len(cases)
             for e in errs:
                 ctx.violation('correspondence:coq-eval', {'error': e}, False, e[:300])
